@@ -30,9 +30,9 @@ type c05Case struct {
 
 var (
 	c05Origins = []string{"code", "oidc", "hyb-idt", "password", "device"}
-	c05Granted = []string{"a", "a offline", "a b.c offline", "a rt", "b.c offline_access"}
+	c05Granted = []string{"a", "a offline", "a b.c offline", "a rt", "b.c offline_access", "ab.c offline"}
 	c05Params  = []string{"none", "scope-admin", "scope-wider", "audience-other", "scope-narrower"}
-	c05Edits   = []string{"none", "rm-a", "narrow-b", "rm-aud", "rm-refresh-grant", "rm-offline"}
+	c05Edits   = []string{"none", "rm-a", "narrow-b", "rm-aud", "rm-refresh-grant", "rm-offline", "rm-ab"}
 	c05RScopes = []string{"none", "default", "custom"}
 	c05Strats  = []string{"exact", "wildcard", "hierarchic"}
 )
@@ -40,11 +40,11 @@ var (
 func c05ClientScopes(strategy string) []string {
 	switch strategy {
 	case "exact":
-		return []string{"openid", "offline", "offline_access", "rt", "a", "b.c", "photos"}
+		return []string{"openid", "offline", "offline_access", "rt", "a", "b.c", "photos", "ab.c"}
 	case "wildcard":
-		return []string{"openid", "offline", "offline_access", "rt", "a", "b.*", "photos"}
+		return []string{"openid", "offline", "offline_access", "rt", "a", "b.*", "photos", "ab.*"}
 	}
-	return []string{"openid", "offline", "offline_access", "rt", "a", "b", "photos"}
+	return []string{"openid", "offline", "offline_access", "rt", "a", "b", "photos", "ab"}
 }
 
 func c05Run(c c05Case, res *WRes) {
@@ -196,6 +196,9 @@ func c05Run(c c05Case, res *WRes) {
 		cl.GrantTypes = without(cl.GrantTypes, "refresh_token")
 	case "rm-offline":
 		cl.Scopes = without(without(cl.Scopes, "offline"), "offline_access")
+	case "rm-ab":
+		// the look-alike "a" (a string prefix of "ab.c", not a segment prefix) stays registered
+		cl.Scopes = without(without(without(cl.Scopes, "ab"), "ab.*"), "ab.c")
 	}
 	form := url.Values{"grant_type": {"refresh_token"}, "refresh_token": {rt}}
 	switch c.Param {
